@@ -19,7 +19,7 @@ RULE = ('Exhaustive: all 1555 strings of length <= 4 over {a . 0 , ] }} in 7 emb
         'point for code point, key sets equal), keys appear sorted, integral numbers carry no fraction (own tokeniser that skips strings), '
         'and unequal values in a run never share a text. Non-trivial: a string or key contains two adjacent characters from {. 0 , ] }} or '
         'a container mixes numbers and strings; distinct by content hash.')
-RULE += " Also: strings made of JSON's own words and a trailing backslash, comment markers (/* */ // <!--), one string with 2 500 brackets; values in which one array / object is stored twice (shared, acyclic)."
+RULE += " Also: strings made of JSON's own words and a trailing backslash, comment markers (/* */ // <!--), one string with 2 500 brackets; values in which one array / object is stored twice (shared, acyclic). Round 5: arrays of 255-1000 numbers, documents of more than 1 MiB with strings ending in a backslash, with and without indent."
 ASSUMPTIONS = [
     'json.loads (CPython) is the standard JSON parser used as the second, independent reader',
     'values contain only null, booleans, finite numbers, strings, arrays and string-keyed objects (the property\'s domain)',
